@@ -19,9 +19,9 @@ CLAIMS["C07"] = (
     "3/C07",
 )
 CLAIMS["C08"] = (
-    "Lean 4 proofs about the moving-window models (score definition, `where` = maximal runs in scan order, peak-of-run soundness and completeness, strict order, reversal of scores) + exact model/code correspondence with hash change scores + reversal check on built-in scores",
-    "Theorems mw_scores_def, where_exactly_maximal_runs, mw_changepoint_is_peak_of_run (every changepoint is the position of the maximum of a maximal above-threshold run of >= min_detection_interval positions), mw_every_long_run_detected, mw_changepoints_strictly_increasing, mw_scores_reversal (score at t of the reversed series = score at n-t) in Skc/Props/C08.lean, for all score functions, n, bandwidths, thresholds.",
-    "the mapping of changepoints t -> n-t under reversal needs unique run maxima and is tied by the oracle (compared only where all above-threshold scores are separated by a margin), not proved; float scores of built-in change scores are compared under tolerance; the model is tied by exact correspondence on integer landscapes incl. tuned thresholds.",
+    "Lean 4 proofs about the moving-window models (score definition, `where` = maximal runs in scan order, peak-of-run soundness and completeness, strict order, reversal of scores and of changepoints) + exact model/code correspondence with hash change scores + reversal check on built-in scores",
+    "Theorems mw_scores_def, where_exactly_maximal_runs, mw_changepoint_is_peak_of_run (every changepoint is the position of the maximum of a maximal above-threshold run of >= min_detection_interval positions), mw_every_long_run_detected, mw_changepoints_strictly_increasing, mw_scores_reversal (score at t of the reversed series = score at n-t), mw_changepoints_reversal / mw_changepoints_reversal_list (with pairwise distinct above-threshold scores, c is a changepoint of the reversed series iff n-c is one of the original; the reported list is the mirrored list reversed) in Skc/Props/C08.lean, for all score functions, n, bandwidths, thresholds.",
+    "the mapping of changepoints t -> n-t under reversal is proved for pairwise distinct above-threshold scores (with equal maxima in a run the first peak is reported, which reversal does not preserve; the oracle likewise compares changepoints only where those scores are separated by a margin); float scores of built-in change scores are compared under tolerance; the model is tied by exact correspondence on integer landscapes incl. tuned thresholds.",
     "3/C08",
 )
 CLAIMS["C09"] = (
@@ -56,7 +56,7 @@ CLAIMS["C04"] = (
 )
 CLAIMS["C16"] = (
     "Lean 4 proof about the subset-selection model (sorted-permutation + first-argmax-of-cumulative-sum) + exact model/code correspondence on table savings with distinct columns",
-    "Theorem affected_columns_optimal (Skc/Props/C16.lean): for every saving vector and penalties the model's affected columns are the first k+1 columns in decreasing order of saving with k maximising the cumulative penalised saving, non-empty, duplicate-free, valid positions, and no excluded column beats an included one. Dense marking is C05's subS2D, tied by correspondence.",
+    "Theorem affected_columns_optimal (Skc/Props/C16.lean): for every saving vector and penalties the model's affected columns are the first k+1 columns in decreasing order of saving with k maximising the cumulative penalised saving, non-empty, duplicate-free, valid positions, and no excluded column beats an included one; affected_columns_best_subset: their summed saving minus the penalty for that many components is the maximum over ALL non-empty column subsets (not only prefixes of the sorted order) and equals the general-branch penalised saving used by the DP. Dense marking is C05's subS2D (sub_label_iff: exactly these columns on exactly the anomaly's rows).",
     "ties between savings are excluded as in the property (argsort order among ties unspecified); the sparse penalty used for collective anomalies is the built-in one made exact through the scale; transform's marking is checked by the oracle and C05.",
     "3/C16",
 )
